@@ -52,7 +52,9 @@ namespace rkcommon {
 
       inline T center() const
       {
-        return .5f * (lower + upper);
+        // halve before adding: lower + upper can overflow although the
+        // midpoint is representable (e.g. [3e38f, 3.4e38f], [2e9, 2.1e9])
+        return .5f * lower + .5f * upper;
       }
 
       inline void extend(const T &t)
